@@ -100,12 +100,36 @@ def write_witness_replay(pid, w, failed_obligations):
     return path
 
 
+def decide_c17(tier, seed):
+    from . import c17
+    t0 = time.time()
+    cov, violations, notes = c17.check(seed, tier)
+    paths = []
+    for n, x in enumerate(violations):
+        paths.append(write_replay("C17", n, x))
+    cov["trusted_base"] = TRUSTED_COMMON
+    ev = {"property_id": "C17", "tier": tier, "seed": seed, "level": "other", "coverage": cov,
+          "assumptions": TRUSTED_COMMON + ["restricted claim: only the functions under contract; pretty-printed text, serde and the macros crate are outside"],
+          "wall_s": round(time.time() - t0, 2), "violations": len(violations)}
+    os.makedirs(EVID, exist_ok=True)
+    json.dump(ev, open(os.path.join(EVID, "C17.json"), "w"), indent=1)
+    if violations:
+        for x, pth in zip(violations, paths):
+            print("failed obligation: %s" % x["obligation"])
+            print("VIOLATION property=C17 replay=%s no-failing-input-found" % pth)
+        return 1
+    print("C17: %d feature sets extracted, %d distinct variant(s) of the functions under contract" % (cov["evaluations"], cov["distinct_variants"]))
+    return 0
+
+
 def decide(pid, tier, seed):
     t0 = time.time()
     props = load_properties()
     if pid not in props:
         print("unknown property %s" % pid)
         return 2
+    if pid == "C17":
+        return decide_c17(tier, seed)
     known = load_known()
     notes = []
     quarantined = []
@@ -178,6 +202,20 @@ def decide(pid, tier, seed):
     if vac_mine:
         raise P.Undecided("vacuous contract (unsatisfiable precondition) in " + ", ".join(vac_mine))
     mine = [x for x in fails if pid in x["props"]] + [x for x in undischarged if pid in x["props"]]
+    kani_cov = {}
+    if pid == "C11":
+        # Arena::get_node_id (raw pointers) is outside Verus: bounded Kani harnesses, labelled bounded
+        kr = P.kani_check()
+        bad = [h for h in kr["harnesses"] if h["status"] == "error"]
+        if bad:
+            raise P.Undecided("Kani harness %s did not run: %s" % (bad[0]["name"], bad[0]["tail"][-300:]))
+        for h in kr["harnesses"]:
+            if h["status"] == "failed":
+                mine.append({"function": "Arena::get_node_id", "obligation": "bounded Kani harness %s (arenas of at most 3 slots)" % h["name"],
+                             "props": ["C11"], "specific": True, "message": "Kani: VERIFICATION FAILED", "rendered": h["tail"]})
+        kani_cov = {"bounded_checks": {"label": "BOUNDED, not counted as proved", "tool": "Kani 0.68 / CBMC", "bound": "arenas of 1..=3 slots, at most one removal and "
+                                       "one recycling, payload types u8 and u64", "harnesses": [{k: h[k] for k in ("name", "status", "checks")} for h in kr["harnesses"]],
+                                       "wall_s": kr["wall_s"], "what": "get_node_id(arena.get(id)) == Some(id) for fresh and recycled slots"}}
     mp_cov = {}
     if pid in ("C05", "C12"):
         # the unchecked forms and append_value must panic exactly when the request is impossible,
@@ -304,6 +342,7 @@ def decide(pid, tier, seed):
     }
     ev["coverage"].update(thorough_extra.get("coverage", {}))
     ev["coverage"].update(mp_cov)
+    ev["coverage"].update(kani_cov)
     ev["coverage"].update(explore_cov)
     os.makedirs(EVID, exist_ok=True)
     json.dump(ev, open(os.path.join(EVID, pid + ".json"), "w"), indent=1)
